@@ -45,6 +45,10 @@ type apiCase struct {
 	Constraints  []string `json:"constraints"`
 	LimitOnTypes []int `json:"limit_on_types"`
 	Solver       string `json:"solver"` // parallel | single
+	// single solver: where the un-plan / plan operators' unit counts start (0: the defaults) — counts well above the
+	// number of units that can be planned at all
+	UnplanStart int `json:"unplan_start,omitempty"`
+	PlanStart   int `json:"plan_start,omitempty"`
 }
 
 func pick(rng *rand.Rand, xs []string) string { return xs[rng.Intn(len(xs))] }
@@ -441,7 +445,14 @@ func runCrashCase(cc *crashCase) (outcome, detail string) {
 		if e != nil {
 			return "rejected", e.Error()
 		}
-		solver, e := defaultSingleSolver(model)
+		opts := singleSolverOptions()
+		if cc.API.UnplanStart > 0 {
+			opts.Unplan = nextroute.IntParameterOptions{StartValue: cc.API.UnplanStart, DeltaAfterIterations: 7, Delta: 1, MinValue: 1, MaxValue: 9,
+				SnapBackAfterImprovement: true, Zigzag: true}
+			opts.Plan = nextroute.IntParameterOptions{StartValue: cc.API.PlanStart, DeltaAfterIterations: 11, Delta: 1, MinValue: 1, MaxValue: 7,
+				SnapBackAfterImprovement: true, Zigzag: true}
+		}
+		solver, e := nextroute.NewSolver(model, opts)
 		if e != nil {
 			return "rejected", e.Error()
 		}
@@ -509,7 +520,11 @@ func genAPICase(rng *rand.Rand) *apiCase {
 			a.LimitOnTypes = append(a.LimitOnTypes, t)
 		}
 	}
-	a.Solver = pick(rng, []string{"parallel", "parallel", "single"})
+	a.Solver = pick(rng, []string{"parallel", "single", "single"})
+	if a.Solver == "single" && rng.Intn(3) != 0 {
+		a.UnplanStart = 1 + rng.Intn(8)
+		a.PlanStart = 1 + rng.Intn(6)
+	}
 	return a
 }
 
